@@ -377,7 +377,7 @@ Section T.
         apply BInv_mono; [exact G2|]. destruct content; [eapply mono_trans|]; apply mono_add.
       + unfold with_spans; cbn [b_eb]. rewrite H3. exact Hi.
     - (* Comment *) destruct intag; [discriminate|].
-      destruct (add_node_gen st (VComment (ss_text text)) (b_spans st) G (mono_refl _) I) as (st1 & H1 & H2 & H3 & H4); rewrite H1.
+      destruct (add_node_gen st (VComment (normalize_line_ends (ss_text text))) (b_spans st) G (mono_refl _) I) as (st1 & H1 & H2 & H3 & H4); rewrite H1.
       cbn. split.
       + assert (BInv st1) as G2 by (eapply BInv_unspan; [exact H2|exact H4]).
         apply BInv_mono; [exact G2|apply mono_add].
